@@ -13,7 +13,7 @@ from ._pairs import compare_all, table_state_keys, V
 
 PID = "C15"
 LEVEL = "model_checking"
-WITNESSES = ["permuted_columns", "extra_column", "reindexed", "extra_rows", "thermal_crop", "combined_transformations", "season_calendar_checked_by_name", "nights_below_base_temperature", "weather_matrix_checked_by_date", "same_dates_other_row_offset"]
+WITNESSES = ["permuted_columns", "extra_column", "reindexed", "extra_rows", "thermal_crop", "combined_transformations", "season_calendar_checked_by_name", "nights_below_base_temperature", "weather_matrix_checked_by_date", "same_dates_other_row_offset", "stepwise_blocks"]
 NONTRIVIAL = WITNESSES
 
 COLS = ["MinTemp", "MaxTemp", "Precipitation", "ReferenceET", "Date"]
@@ -63,6 +63,9 @@ def byname_scenarios(tier):
         for word in ("coolnights", "hot", "mix"):
             for perm in ([0, 1, 2, 3, 4], [1, 0, 3, 2, 4], [4, 3, 2, 1, 0]):
                 yield {"kind": "byname", "method": meth, "word": word, "perm": perm, "extra": "front", "index": "shift1000", "rows": "lead400"}
+        # the same oracle under step-wise execution (blocks of days that contain a harvest and the jump to the next planting date)
+        for steps in (30, 7, 400):
+            yield {"kind": "byname", "method": meth, "word": "coolnights", "perm": [1, 0, 3, 2, 4], "extra": "none", "index": "range", "rows": "lead400", "steps": steps}
 
 
 def run_byname(scn):
@@ -80,7 +83,26 @@ def run_byname(scn):
     df = transform(canonical, scn, p)
     ent = S.make_entities(spec)
     ent["weather_df"] = df
-    t, a, m = run_plain(spec, entities=ent)
+    if scn.get("steps"):
+        # blocks of run_model(num_steps=k) calls instead of one uninterrupted run
+        from ..driver import tables, describe_exception, watchdog
+        t, a, m = None, None, None
+        try:
+            with watchdog(120):
+                m = S.make_model(spec, ent)
+                m.run_model(num_steps=int(scn["steps"]), till_termination=False)
+                guard = 0
+                while not m._clock_struct.model_is_finished and guard < 5000:
+                    m.run_model(num_steps=int(scn["steps"]), till_termination=False, initialize_model=False)
+                    guard += 1
+            t = tables(m)
+            res["witness"]["stepwise_blocks"] = 1
+        except BaseException as e:  # noqa: BLE001
+            if isinstance(e, (KeyboardInterrupt, SystemExit)):
+                raise
+            a = describe_exception(e)
+    else:
+        t, a, m = run_plain(spec, entities=ent)
     res["evals"] = 1
     if a:
         res["aborted"] = a
@@ -152,7 +174,7 @@ def run_byname(scn):
     from ..driver import GX
     rows = np.where(t["storage"][:, 1] == 1)[0]
     start = pd.Timestamp(ck.simulation_start_date)
-    for r in rows[:: max(1, len(rows) // 60)]:
+    for r in rows:   # every in-season day
         day = start + pd.Timedelta(days=int(r))
         rec = by_date.loc[day]
         c = crops[int(gd[r, GX["season_counter"]])]
